@@ -51,8 +51,13 @@ Definition realised_tags (m : mutation) (o : step_obs) : list string :=
            "viol:recursive-not-applied"
   else if String.eqb (m_type m) "empty-file" then
     tag_if (negb (match so_stat o with
-                  | Some s => kind_eqb (si_kind s) KFile && has_attrs_b m s && N.eqb (so_size o) 0
-                  | None => false end)) "viol:empty-file-not-present-with-perm-owner"
+                  | Some s => kind_eqb (si_kind s) KFile && has_attrs_b m s
+                  | None => false end)) "viol:empty-file-not-present-with-perm-owner" ++
+    (* present as declared but with content (finding C13-F4: a truncated
+       package-backed file of tarfs shows the package's content again) *)
+    tag_if (match so_stat o with
+            | Some s => kind_eqb (si_kind s) KFile && has_attrs_b m s && negb (N.eqb (so_size o) 0)
+            | None => false end) "viol:empty-file-not-empty"
   else if String.eqb (m_type m) "symlink" then
     match so_direct o with
     | Some d =>
